@@ -6,7 +6,8 @@ corr   : (A) region requests: the Lean `validate` / offsets / output blocks / de
          (B) argument pairing of `store` (length checks) vs `pairUp`;
          (C) lists of pairs with repeated / dependent lazy sources vs `storeOutcome` (rejected k / which targets are written, which never created;
              `broken` = no prediction);
-         (D) the no-region identity copy into an existing array of another length vs `runCopy`.
+         (D) the no-region store into an existing array (other length: rejected; other chunking: rechunked) vs
+             `validateNoRegion` / `storeCopy`.
 oracle : independent of the model: sources x targets x regions x eager/lazy x executors x lists of pairs, expectation
          computed with NumPy (`target[region] = source`, sentinel elsewhere); "rejected" = ValueError before the
          computation was started with every target untouched.  Known genuine defects are classified on the shrunk case.
@@ -22,21 +23,26 @@ RULE = ("region requests: 1-3 axes, target length 1..12, chunk 1..5, slices {Non
         "group paths, existing arrays (same / other chunking, sharded, other shape) with or without regions, eager and lazy, "
         "single-threaded and threads; non-trivial = more than one task or more than one pair or a region; distinct by case text")
 ASSUMPTIONS = [
-    "zarr `target[slot] = value` for a value of another length takes value[:len(slot)] and NumPy-broadcasts the rest; a slot "
-    "is written whole by one `__setitem__` (compared on every executed region case: final target contents and error kind)",
+    "zarr `target[slot] = value` writes exactly the slot when value and slot have the same length (the only case the fixed "
+    "code produces; the old variant of the model additionally uses value[:len(slot)] + NumPy broadcasting, kept for the "
+    "`_old_` theorems) - compared on every executed region case: final target contents and error kind",
     "zarr OrthogonalIndexer / SliceDimIndexer iteration (chunks hit by a slice, empty projections skipped) as modelled by "
     "`hitBlocks` (compared with `list(pipeline.mappable)` on every accepted region case)",
-    "an op that is re-targeted in place writes its whole output to the new location (C05/C01) (compared on every generated "
-    "pair list the model makes a prediction for)",
+    "`source.rechunk(c)` yields an array with the same values and chunk size min(c, extent) per axis (C14/C01); an op that "
+    "is re-targeted in place writes its whole output to the new location (C05/C01) (compared on every generated pair list "
+    "the model makes a prediction for)",
     "the single-threaded executor runs the tasks of an op in mappable order and stops at the first failing task",
 ]
 TRUSTED = [
     "modelled not verified: NumPy broadcasting inside zarr's chunk merge; Python slice.indices; the order in which "
-    "compute_arrays merges the per-array plans: when a re-targeted lazy source is still read at its old location the model "
-    "answers `broken` (no prediction; the implementation raises midway, computes from fill values, or survives by luck)",
+    "compute_arrays merges the per-array plans: when a re-targeted lazy source is still read at its old location (or read "
+    "back from an existing array chunked differently) the model answers `broken` (no prediction; the implementation raises "
+    "midway, computes from fill values, or survives by luck)",
 ]
 
-VERDICT_MSG = {"does not align with target chunks": "misaligned", "does not match region shape": "shape"}
+VERDICT_MSG = {"does not align with target chunks": "misaligned", "does not match region shape": "shape",
+               "must not have steps other than 1": "badstep", "must be a tuple of": "badregion",
+               "does not match target shape": "shape"}
 
 
 # ------------------------------------------------------------------------------------------------
@@ -109,6 +115,13 @@ def gen_region_case(rng):
         axes[0] = gen_axis(rng, "aligned")
         if axes[0]["sl"] == (None, None, None):
             axes[0]["sl"] = (0, None, None)
+    if nd > 1 and rng.random() < 0.06:
+        # region tuple shorter than ndim: no entry for the trailing axes (their source extent = the whole axis)
+        for a in axes[rng.randint(1, nd - 1):]:
+            a["absent"] = True
+            a["sl"] = (None, None, None)
+            a["m"] = a["n"]
+            a["sc"] = min(a["sc"], a["m"])
     # keep n-D cases small
     while nd > 1 and _prod(a["n"] for a in axes) > 400:
         for a in axes:
@@ -127,6 +140,8 @@ def _prod(xs):
 def axis_req(a):
     s, e, st = a["sl"]
     f = lambda v: "N" if v is None else str(v)
+    if a.get("absent"):
+        return "%d,%d,X,N,N,%d,%d" % (a["n"], a["cs"], a["m"], a["sc"])
     return "%d,%d,%s,%s,%s,%d,%d" % (a["n"], a["cs"], f(s), f(e), f(st), a["m"], a["sc"])
 
 
@@ -155,7 +170,7 @@ def real_region(env, axes, run=True):
     z[...] = -1
     src = xp.asarray(np.arange(1, _prod(mshape) + 1, dtype="int64").reshape(mshape), chunks=tuple(a["sc"] for a in axes),
                      spec=env.spec)
-    region = tuple(slice(*a["sl"]) for a in axes)
+    region = tuple(slice(*a["sl"]) for a in axes if not a.get("absent"))
     extra = {}
     try:
         out = cubed.store(src, z, regions=region, compute=False)
@@ -177,7 +192,8 @@ def real_region(env, axes, run=True):
     for b in blocks:
         fa = kf(ChunkKey("out", tuple(b)))
         k = fa.args[0]
-        if k.name != src.name or len(fa.args) != 1:
+        # the op reads one array: the source itself or the source rechunked to the target's chunks
+        if k.name != pop.source_array_names[0] or len(pop.source_array_names) != 1 or len(fa.args) != 1:
             consistent = False
         d = [bo - bi for bo, bi in zip(b, k.coords)]
         if offs is None:
@@ -221,6 +237,9 @@ def prep_regions(ctx, n):
         [{"n": 12, "cs": 4, "sl": (4, 12, None), "m": 8, "sc": 4}],
         [{"n": 10, "cs": 4, "sl": (8, 10, None), "m": 2, "sc": 2}],
         [{"n": 6, "cs": 2, "sl": (2, 6, None), "m": 4, "sc": 2}, {"n": 5, "cs": 3, "sl": (3, None, None), "m": 2, "sc": 2}],
+        [{"n": 4, "cs": 2, "sl": (2, 4, None), "m": 2, "sc": 2}, {"n": 4, "cs": 2, "sl": (None, None, None), "m": 4, "sc": 2, "absent": True}],
+        [{"n": 10, "cs": 4, "sl": (0, 12, None), "m": 10, "sc": 3}],
+        [{"n": 8, "cs": 4, "sl": (4, 4, None), "m": 1, "sc": 1}],
     ]
     cases = fixed + cases
     reqs = [region_request(c) for c in cases]
@@ -261,7 +280,7 @@ def region_oracle_case(axes):
             "pool": [{"op": "asarray", "chunks": [a["sc"] for a in axes]}],
             "pairs": [{"src": 0, "target": {"kind": "array", "shape": [a["n"] for a in axes], "chunks": [a["cs"] for a in axes],
                                             "shards": None},
-                       "region": [list(a["sl"]) for a in axes]}],
+                       "region": [list(a["sl"]) for a in axes if not a.get("absent")]}],
             "api": "store", "compute": "eager", "executor": "single"}
 
 
@@ -353,8 +372,13 @@ def gen_store_case(rng):
     for _ in range(rng.randint(1, 3)):
         src = rng.randrange(len(pool))
         r = rng.random()
-        if r < 0.6:
+        if r < 0.5:
             pairs.append({"src": src, "target": {"kind": "path"}, "region": None, "accepted": True})
+        elif r < 0.6:
+            # existing array of the source's shape; "half": stored chunks that divide the source's (no rechunk inserted)
+            pairs.append({"src": src, "target": {"kind": "array", "shape": list(shape), "chunks": None, "shards": None,
+                                                 "half": rng.random() < 0.7},
+                          "region": None, "accepted": True})
         else:
             second = rng.random() < 0.5
             tshape = [2 * s for s in shape]
@@ -380,6 +404,13 @@ def prep_store(ctx, env, n):
                    {"src": 2, "target": {"kind": "path"}, "region": None, "accepted": True}],
          "api": "store", "compute": "lazy", "executor": "single"},
     ]
+    fixed.append(
+        {"shape": [4, 4], "pool": [{"op": "asarray", "chunks": [4, 2]}, {"op": "add1", "arg": 0}],
+         "pairs": [{"src": 1, "target": {"kind": "array", "shape": [4, 4], "chunks": [2, 1], "shards": None}, "region": None,
+                    "accepted": True},
+                   {"src": 1, "target": {"kind": "array", "shape": [8, 8], "chunks": None, "shards": None},
+                    "region": [[0, 4, None], [0, 4, None]], "accepted": True}],
+         "api": "store", "compute": "lazy", "executor": "single"})
     cases = fixed + cases
     # laziness and dependencies are read off the real arrays, so the pool has to be built before asking the model
     prepared = []
@@ -394,8 +425,16 @@ def prep_store(ctx, env, n):
             continue
         chunk_of = [list(a.chunksize) for a in arrs]
         for p in case["pairs"]:
+            p["same"] = True
+            if p["target"]["kind"] == "array" and p["target"]["chunks"] is not None and p["region"] is None:
+                p["same"] = list(p["target"]["chunks"]) == chunk_of[p["src"]]
             if p["target"]["kind"] == "array" and p["target"]["chunks"] is None:
-                p["target"]["chunks"] = chunk_of[p["src"]]
+                p["target"]["chunks"] = list(chunk_of[p["src"]])
+                if p["region"] is None:
+                    if p["target"].pop("half", False):
+                        p["target"]["chunks"] = [c // 2 if c % 2 == 0 else c for c in p["target"]["chunks"]]
+                    p["same"] = p["target"]["chunks"] == chunk_of[p["src"]]
+                    continue
                 # alignment of the half region with the *actual* source chunking
                 cs = p["target"]["chunks"]
                 p["accepted"] = all((r[0] % c == 0) and (r[1] % c == 0 or r[1] == 2 * s)
@@ -404,7 +443,8 @@ def prep_store(ctx, env, n):
         lazy, deps, ident = info["lazy"], info["deps"], info["ident"]
         tab = " ".join("%d:%d:%s" % (i, int(lazy[i]), ".".join(str(ident[d]) for d in deps[i]))
                        for i in range(len(arrs)) if ident[i] == i)
-        prs = " ".join("%d:%d:%d:%d" % (ident[p["src"]], 100 + k, int(p["region"] is not None), int(p["accepted"]))
+        prs = " ".join("%d:%d:%d:%d:%d:%d" % (ident[p["src"]], 100 + k, int(p["region"] is not None), int(p["accepted"]),
+                                              int(p["same"]), int(p["target"]["kind"] == "array"))
                        for k, p in enumerate(case["pairs"]))
         prepared.append((case, "store|%s|%s" % (tab, prs)))
     return prepared, [rq for _, rq in prepared]
@@ -414,7 +454,7 @@ def check_store(ctx, env, prepared, reqs, ans):
     import numpy as np
 
     for (case, rq), model in zip(prepared, ans):
-        run = dict(case, pairs=[{k: v for k, v in p.items() if k != "accepted"} for p in case["pairs"]])
+        run = dict(case, pairs=[{k: v for k, v in p.items() if k not in ("accepted", "same")} for p in case["pairs"]])
         try:
             res = cc.run_case(env, run)
         except Exception as e:  # noqa: BLE001
@@ -453,9 +493,16 @@ def check_store(ctx, env, prepared, reqs, ans):
 # ------------------------------------------------------------------------------------------------
 
 def prep_copy(ctx, n):
-    cases = [(ctx.rng.randint(1, 12), ctx.rng.randint(1, 5), ctx.rng.randint(1, 12)) for _ in range(n)]
-    cases = [(m, min(sc, m), nn if ctx.rng.random() < 0.5 else m) for m, sc, nn in cases] + [(8, 4, 6), (8, 4, 10)]
-    reqs = ["copy|%d,%d,%d" % c for c in cases]
+    """(m, sc, n, tc): length-m source with chunk sc stored without region into an existing length-n array with chunk tc"""
+    cases = []
+    for _ in range(n):
+        m = ctx.rng.randint(1, 12)
+        sc = min(ctx.rng.randint(1, 6), m)
+        nn = m if ctx.rng.random() < 0.75 else ctx.rng.randint(1, 12)
+        tc = sc if ctx.rng.random() < 0.3 else ctx.rng.randint(1, 6)
+        cases.append((m, sc, nn, min(tc, nn)))
+    cases += [(8, 4, 6, 4), (8, 4, 10, 4), (8, 1, 8, 4), (8, 3, 8, 4), (8, 8, 8, 4), (11, 1, 10, 1), (5, 3, 9, 3)]
+    reqs = ["copy|%d,%d,%d,%d" % c for c in cases]
     return cases, reqs
 
 
@@ -466,27 +513,38 @@ def check_copy(ctx, env, cases, reqs, ans):
     import cubed
     import cubed.array_api as xp
 
-    for (m, sc, nn), rq, model in zip(cases, reqs, ans):
+    for (m, sc, nn, tc), rq, model in zip(cases, reqs, ans):
         p = env.fresh()
-        z = zarr.create_array(p, shape=(nn,), chunks=(sc,), dtype="int64", fill_value=0)
+        z = zarr.create_array(p, shape=(nn,), chunks=(tc,), dtype="int64", fill_value=0)
         z[...] = -1
         src = xp.asarray(np.arange(1, m + 1, dtype="int64"), chunks=(sc,), spec=env.spec)
+        ex = cc.executors()["single"]()
         outcome = "ok"
+        rejected = None
         try:
-            cubed.store(src, z, executor=cc.executors()["single"]())
+            cubed.store(src, z, executor=ex)
         except IndexError:
             outcome = "IndexError"
         except ValueError as e:
-            outcome = "BroadcastError" if "broadcast" in str(e) else "ValueError:" + str(e)[:40]
+            if not ex.started:
+                rejected = next((v for k, v in VERDICT_MSG.items() if k in str(e)), "ValueError:" + str(e)[:40])
+            else:
+                outcome = "BroadcastError" if "broadcast" in str(e) else "ValueError:" + str(e)[:40]
         except Exception as e:  # noqa: BLE001
             outcome = "exc:" + type(e).__name__
-        impl = "outcome=%s final=%s" % (outcome, ",".join(map(str, zarr.open_array(p, mode="r")[...].tolist())))
+        final = zarr.open_array(p, mode="r")[...].tolist()
+        if rejected is not None:
+            impl = "verdict=" + rejected
+            if any(v != -1 for v in final):
+                ctx.fail("store raised ValueError after the target had been modified", {"request": rq})
+        else:
+            impl = "verdict=ok outcome=%s final=%s" % (outcome, ",".join(map(str, final)))
         ctx.count({"copy": rq, "impl": impl[:120]}, nontrivial=m > sc, kind="copy:" + ("same-shape" if m == nn else "other-shape"))
         if impl != model:
-            ctx.disagree("StoreSem.runCopy = blockwise identity into an existing target",
+            ctx.disagree("StoreSem.validateNoRegion/storeCopy = no-region store into an existing target",
                          {"request": rq, "oracle_case": {
                              "shape": [m], "pool": [{"op": "asarray", "chunks": [sc]}],
-                             "pairs": [{"src": 0, "target": {"kind": "array", "shape": [nn], "chunks": [sc], "shards": None},
+                             "pairs": [{"src": 0, "target": {"kind": "array", "shape": [nn], "chunks": [tc], "shards": None},
                                         "region": None}],
                              "api": "store", "compute": "eager", "executor": "single"}}, model, impl)
 
